@@ -54,8 +54,9 @@ def timeout_scenarios(rng, n):
             # a keep-alive history before it, with an idle gap longer than the timeout
             pool['keep_alive'] = True
             pre = {'op': 'map', 'n': rng.randint(1, 8), 'chunk_size': 1, 'dur': {'kind': 'map', 'map': {}, 'default': 0.01}}
+            with_timeouts_before = rng.random() < .5      # the earlier call on the kept-alive pool may have had no timeouts at all
             for key in ('task_timeout', 'worker_init_timeout', 'worker_exit_timeout', 'init', 'exit', 'init_dur', 'exit_dur'):
-                if key in op and key not in ('init_dur', 'exit_dur'):
+                if key in op and key not in ('init_dur', 'exit_dur') and (with_timeouts_before or 'timeout' not in key):
                     pre[key] = op[key]
             if which in ('init', 'exit'):
                 pre['init_dur' if which == 'init' else 'exit_dur'] = 0.0
